@@ -147,8 +147,13 @@ def runner(rep, tier, seed, replay):
     shapes = ["vst p mode=prod,n=10 | vst c mode=cons", "vst p mode=prod,n=10 | vst f mode=filt | vst f mode=filt | vst c mode=cons",
               "vpa $(vout 1)", "vio h r <<< hi", "vst p mode=prod,n=10 | vst f mode=filt | vst f mode=filt | vst f mode=filt | vst f mode=filt | vst c mode=cons",
               "vio a > f9 2>&1 | vst c mode=cons"]
+    # the pipes made while the pipeline is already being started: the here-string pipe of a later stage, the capture pipes of a
+    # substituted pipeline
+    late = ["vio a | vio h r <<< hi", "vpa $(vout 1 | vio c r)", "vio a | vio b r | vio h r <<< hi | vio d r", "X=$(vio a | vio h r <<< hi)"]
     if tier == "quick":
-        shapes = shapes[:3]
+        shapes = shapes[:3] + late[:2]
+    else:
+        shapes += late
     faults = []
     for n in limits:
         for sh in shapes:
